@@ -14,7 +14,7 @@ from sympy import S, Abs, Add, Derivative, Max, Min, Mul, Pow, Rational, cos, ex
 from sympy.physics import units
 from sympy.physics.units import Quantity as SymQuantity
 
-from vp import coqrun, qx
+from vp import common, coqrun, qx
 from props.c05 import rand_dimvec, unit_expr_from_vec, ZERO, vscale, MAGS
 from props.c04 import dimension_from_vec
 
@@ -527,9 +527,10 @@ def run(ctx):
         # dynamic supplements on the implementation (tests)
         if obs[0] == "ok" and (len(cases) % 4 == 0 or stream == "boundary"):
             try:
-                ve = value_equal(sympy.sympify(expr), sympy.sympify(out), rng)
+                with common.time_limit(10):
+                    ve = value_equal(sympy.sympify(expr), sympy.sympify(out), rng)
             except Exception:  # pylint: disable=broad-except
-                ve = None   # substitution made SymPy refuse (e.g. Min/Max of a complex number): no verdict
+                ve = None   # substitution made SymPy refuse (e.g. Min/Max of a complex number) or evaluation takes minutes: no verdict
             if ve is not None:
                 tests["value_equal_checked"] += 1
                 if ve is False:
@@ -538,7 +539,8 @@ def run(ctx):
             if gen is not None and not gen.has_deriv and not gen.has_dimensional_fun_arg and stream == "valid" and not any(
                     isinstance(a, sympy.core.function.AppliedUndef) for a in sympy.sympify(expr).atoms(sympy.Function)):
                 try:
-                    why = diagram_holds(sympy.sympify(expr), dim, rng)
+                    with common.time_limit(10):
+                        why = diagram_holds(sympy.sympify(expr), dim, rng)
                 except Exception:  # pylint: disable=broad-except
                     why = None
                 tests["diagram_checked"] += 1
